@@ -22,10 +22,13 @@ Inductive c21case :=
        (buckets : list (N * N * N)) (count : N) (sum : N)
 (* declaration + observations scraped through a prometheus registry:
    (upper bound, cumulative count) in increasing bound order, sample count, sample sum *)
-| CExp (id : N) (bounds : list N) (vs : list N) (res : option (list (N * N) * N * N)).
+| CExp (id : N) (bounds : list N) (vs : list N) (res : option (list (N * N) * N * N))
+(* a metric whose Buckets are the given ranges IN ANY ORDER (store API), observed and
+   scraped: (upper bound, cumulative count) in increasing bound order, count, sum *)
+| CExpR (id : N) (ranges : list (N * N)) (vs : list N) (res : list (N * N) * N * N).
 
 Definition c21_id (c : c21case) : N :=
-  match c with CDecl i _ _ | CObs i _ _ _ _ _ | CExp i _ _ _ => i end.
+  match c with CDecl i _ _ | CObs i _ _ _ _ _ | CExp i _ _ _ | CExpR i _ _ _ => i end.
 
 Definition decl_model (bounds : list N) : option (list (N * N)) :=
   option_map (map range_to_bits) (make_ranges prim_ops (map of_bits bounds)).
@@ -36,9 +39,13 @@ Definition obs_model (ranges : list (N * N)) (vs : list N) : list (N * N * N) * 
 
 Definition exp_model (bounds vs : list N) : option (list (N * N) * N * N) :=
   match declare_observe prim_ops (map of_bits bounds) (map of_bits vs) with
-  | Some d => Some (map (fun p => (to_bits (fst p), snd p)) (cum_by_max d), b_count d, to_bits (b_sum d))
+  | Some d => Some (map (fun p => (to_bits (fst p), snd p)) (cum_by_max prim_ops d), b_count d, to_bits (b_sum d))
   | None => None
   end.
+
+Definition expr_model (ranges : list (N * N)) (vs : list N) : list (N * N) * N * N :=
+  let d := observe_all prim_ops (map of_bits vs) (make_buckets prim_ops (map range_of_bits ranges)) in
+  (map (fun p => (to_bits (fst p), snd p)) (cum_by_max prim_ops d), b_count d, to_bits (b_sum d)).
 
 Definition triple_eqb (a b : N * N * N) : bool := pair_eqb (fst a) (fst b) && N.eqb (snd a) (snd b).
 Definition exp_eqb (a b : list (N * N) * N * N) : bool :=
@@ -51,6 +58,7 @@ Definition c21_ok (c : c21case) : bool :=
       let '(b, c', s) := obs_model ranges vs in
       list_eqb triple_eqb b buckets && N.eqb c' count && N.eqb s sum
   | CExp _ bounds vs res => opt_eqb exp_eqb (exp_model bounds vs) res
+  | CExpR _ ranges vs res => exp_eqb (expr_model ranges vs) res
   end.
 
 Definition mismatches (l : list c21case) : list N := failing c21_ok c21_id l.
